@@ -25,9 +25,10 @@ open Infretis.Repex Infretis.Perm
 theorem restore_persist_obs_eq_partial {s s' : St} (occ : List (List Int)) (weightOf : Nat → List Rat)
     (h : restore (persist s) s.n s.workers s.tsteps occ s.ensEng weightOf = .ok s')
     (hslots : s'.W = s.W ∧ s'.trajs = s.trajs ∧ s'.locks = s.locks ∧ FEq s.frac s'.frac ∧ FEq s.wts s'.wts)
-    (hlk : s.locked = []) (hl0 : s.locked0 = []) (hent : s.entropy = s.seed) (hsp : s.spawned = s.cstep) :
+    (hlk : s.locked = []) (hl0 : s.locked0 = []) (hlo : s.lockedOrd = []) (hl0o : s.locked0Ord = [])
+    (hent : s.entropy = s.seed) (hsp : s.spawned = s.cstep) :
     RestoreRel occ s s' :=
-  restore_persist_rel occ weightOf h hslots hlk hl0 hent hsp
+  restore_persist_rel occ weightOf h hslots hlk hl0 hlo hl0o hent hsp
 
 /-- **2a. `prep_md_items` respects observational equality** once the initiation is closed (`toinitiate = -1`, which is
     the case from the first `loop()` on): same error, or observationally equal states and the *identical* job
@@ -89,22 +90,54 @@ theorem restart_first_job_same {occ : List (List Int)} {s2 s' : St} (job : Job) 
   obtain ⟨y1, yR, h1, h2, h3, h4⟩ := restart_step job rest o hR hw hti hpin hl0 hlt hocc hU
   exact ⟨y1, yR, h1, h2, h4, h3.mainDraws, h3.spawned, h3.entropy⟩
 
-/-- **4. `reissue_exact`, any number of workers.**  From a state with recorded in-flight jobs `rec` (slot = ensemble + 1,
-    path) — after a restart `locked0` is exactly what the stop recorded — the first `|rec|` iterations of the initiation
-    loop that run hand out exactly the recorded (ensemble, path) pairs, job by job and in recorded order, consume the
-    record, append every one of them to `locked` again, and leave every such slot locked with its path (`Held`).
+/-- **4. `reissue_exact`, any number of workers.**  From a state with recorded in-flight jobs `recs` = ((slots = ensemble
+    + 1, paths), ordinal of the job's child stream) — after a restart `locked0`/`locked0Ord` are exactly what the stop
+    recorded — the first `|recs|` iterations of the initiation loop that run
+      * hand out exactly the recorded (ensemble, path) pairs, job by job and in recorded order,
+      * **with exactly the streams of the recorded ordinals**: entry `j` of the job with ordinal `ord` gets the move
+        stream `SeedSequence(entropy, (ord, j))` and the engine stream `SeedSequence(entropy, (ord, j, 0))`
+        (`recJobFull`; `entropy` = the seed in every restored state, see `reissue_exact_seed`) — the very streams
+        the job had before the stop, so a multi-worker restart re-runs the same jobs with the same random numbers,
+      * leave the spawn counter untouched (jobs issued = completed + in flight stays true),
+      * consume the record, and put every job on record again (`locked`) **with the same ordinal** (`lockedOrd`),
+      * leave every such slot locked with its path (`Held`).
     (Paths pairwise distinct, as C03 proves for recorded jobs.)  How many iterations run is `initiate_bound`. -/
-theorem reissue_exact (rec : List (List Nat × List Nat)) (starts : List (PickOutcome × Nat)) (y y' : Sys)
-    (rest : List (List Nat × List Nat)) (H : List (Nat × Nat))
-    (hlen : starts.length = rec.length) (hl0 : y.s.locked0 = rec ++ rest)
+theorem reissue_exact (recs : List ((List Nat × List Nat) × Nat)) (starts : List (PickOutcome × Nat)) (y y' : Sys)
+    (rest : List (List Nat × List Nat)) (ordRest : List (Option Nat)) (H : List (Nat × Nat))
+    (hlen : starts.length = recs.length) (hl0 : y.s.locked0 = recs.map (·.1) ++ rest)
+    (hl0o : y.s.locked0Ord = recs.map (fun r => some r.2) ++ ordRest)
     (hshape : y.s.trajs.length = y.s.locks.length) (hH : Held y.s H)
-    (hnd : ((H ++ rec.flatMap recPairs).map (·.2)).Nodup)
+    (hnd : ((H ++ recs.flatMap (fun r => recPairs r.1)).map (·.2)).Nodup)
     (hrun : run y (starts.map (fun x => Ev.start x.1 x.2)) = .ok y') :
     ∃ jobs, y'.jobs = y.jobs ++ jobs ∧
-      jobs.map (fun j => j.picked.map (fun p => (p.ens, p.pn))) = rec.map recJob ∧
-      y'.s.locked0 = rest ∧ y'.s.locked = y.s.locked ++ rec.map recEntry ∧
-      Held y'.s (H ++ rec.flatMap recPairs) :=
-  reissue_run rec starts y y' rest H hlen hl0 hshape hH hnd hrun
+      jobs.map (fun j => j.picked.map pkFull) = recs.map (fun r => recJobFull y.s.entropy r.2 r.1) ∧
+      y'.s.locked0 = rest ∧ y'.s.locked0Ord = ordRest ∧
+      y'.s.locked = y.s.locked ++ recs.map (fun r => recEntry r.1) ∧
+      y'.s.lockedOrd = y.s.lockedOrd ++ recs.map (·.2) ∧
+      y'.s.spawned = y.s.spawned ∧ y'.s.entropy = y.s.entropy ∧
+      Held y'.s (H ++ recs.flatMap (fun r => recPairs r.1)) :=
+  reissue_run recs starts y y' rest ordRest H hlen hl0 hl0o hshape hH hnd hrun
+
+/-- the ensemble/path part and the stream part of `reissue_exact` spelled out for a state whose entropy is the seed
+    (every restored state: `blank` sets `entropy := seed`): job `i`, entry `j` is
+    (ensemble = slot − 1, recorded path, rgen = ⟨seed, [ord_i, j]⟩, rgenEng = ⟨seed, [ord_i, j, 0]⟩). -/
+theorem reissue_exact_seed (recs : List ((List Nat × List Nat) × Nat)) (starts : List (PickOutcome × Nat)) (y y' : Sys)
+    (rest : List (List Nat × List Nat)) (ordRest : List (Option Nat)) (H : List (Nat × Nat))
+    (hseed : y.s.entropy = y.s.seed)
+    (hlen : starts.length = recs.length) (hl0 : y.s.locked0 = recs.map (·.1) ++ rest)
+    (hl0o : y.s.locked0Ord = recs.map (fun r => some r.2) ++ ordRest)
+    (hshape : y.s.trajs.length = y.s.locks.length) (hH : Held y.s H)
+    (hnd : ((H ++ recs.flatMap (fun r => recPairs r.1)).map (·.2)).Nodup)
+    (hrun : run y (starts.map (fun x => Ev.start x.1 x.2)) = .ok y') :
+    ∃ jobs, y'.jobs = y.jobs ++ jobs ∧
+      jobs.map (fun j => j.picked.map (fun p => (p.ens, p.pn, p.rgen, p.rgenEng))) =
+        recs.map (fun r => ((r.1.1.zip r.1.2).zipIdx).map (fun xi =>
+          ((xi.1.1 : Int) - 1, xi.1.2, ({ entropy := y.s.seed, key := [r.2, xi.2] } : Stream),
+           ({ entropy := y.s.seed, key := [r.2, xi.2, 0] } : Stream)))) := by
+  obtain ⟨jobs, h1, h2, _⟩ := reissue_run recs starts y y' rest ordRest H hlen hl0 hl0o hshape hH hnd hrun
+  refine ⟨jobs, h1, ?_⟩
+  rw [hseed] at h2
+  exact h2
 
 /-- the initiation loop runs an iteration only while a worker slot and a step are left, and uses one slot up: at most
     `min(workers, tsteps − cstep)` jobs are started (re-issued) after a restart (repaired `initiate`, commit 2596063). -/
@@ -113,20 +146,27 @@ theorem initiate_bound {s : St} (h : (initiate s).2 = true) :
       (initiate s).1.toinitiate = s.toinitiate - 1 :=
   initiate_go h
 
-/-- **4b. a second restart records them again**: the restart image written after the re-issues lists the re-issued
-    jobs again (after whatever was on record before). -/
-theorem reissue_survives_second_restart (rec : List (List Nat × List Nat)) (starts : List (PickOutcome × Nat))
-    (y y' : Sys) (rest : List (List Nat × List Nat)) (H : List (Nat × Nat))
-    (hlen : starts.length = rec.length) (hl0 : y.s.locked0 = rec ++ rest)
+/-- **4b. a second restart records them again, with the same ordinals**: the restart image written after the re-issues
+    lists the re-issued jobs again (after whatever was on record before) together with their ordinals, and — the spawn
+    counter being untouched — `set_rgen`'s `cstep + |locked|` still counts the jobs issued. -/
+theorem reissue_survives_second_restart (recs : List ((List Nat × List Nat) × Nat)) (starts : List (PickOutcome × Nat))
+    (y y' : Sys) (rest : List (List Nat × List Nat)) (ordRest : List (Option Nat)) (H : List (Nat × Nat))
+    (hlen : starts.length = recs.length) (hl0 : y.s.locked0 = recs.map (·.1) ++ rest)
+    (hl0o : y.s.locked0Ord = recs.map (fun r => some r.2) ++ ordRest)
     (hshape : y.s.trajs.length = y.s.locks.length) (hH : Held y.s H)
-    (hnd : ((H ++ rec.flatMap recPairs).map (·.2)).Nodup)
-    (hpos : ∀ r ∈ rec, ∀ e ∈ r.1, 1 ≤ e)
+    (hnd : ((H ++ recs.flatMap (fun r => recPairs r.1)).map (·.2)).Nodup)
     (hrun : run y (starts.map (fun x => Ev.start x.1 x.2)) = .ok y') :
-    (persist y'.s).locked = (persist y.s).locked ++ rec := by
-  obtain ⟨jobs, _, _, _, h4, _⟩ := reissue_run rec starts y y' rest H hlen hl0 hshape hH hnd hrun
-  simp only [persist, h4, List.map_append]
-  congr 1
-  exact persist_locked_recEntry rec hpos
+    (persist y'.s).locked = (persist y.s).locked ++ recs.map (·.1) ∧
+      (persist y'.s).lockedOrd = (persist y.s).lockedOrd ++ recs.map (·.2) ∧
+      y'.s.spawned = y.s.spawned := by
+  obtain ⟨jobs, _, _, _, _, h4, h4o, h5, _⟩ :=
+    reissue_run recs starts y y' rest ordRest H hlen hl0 hl0o hshape hH hnd hrun
+  refine ⟨?_, ?_, h5⟩
+  · simp only [persist, h4, List.map_append]
+    congr 1
+    have := persist_locked_recEntry (recs.map (·.1))
+    simpa [List.map_map] using this
+  · simp only [persist, h4o]
 
 /-! ### non-vacuity on concrete small systems -/
 
@@ -135,7 +175,8 @@ def exRestored : St :=
   { n := 4,
     W := [[1, 0, 0, 0], [0, 1, 1, 0], [0, 1, 0, 0], [0, 0, 0, 0]],
     trajs := [some 0, some 5, some 3, none], locks := [false, false, false, true],
-    locked := [], locked0 := [([2], [5]), ([1], [3])], toinitiate := 2, workers := 2, cworker := 0,
+    locked := [], locked0 := [([2], [5]), ([1], [3])], locked0Ord := [some 3, some 5],
+    toinitiate := 2, workers := 2, cworker := 0,
     cstep := 4, tsteps := 9, trajNum := 6,
     frac := [(5, [0, 0, 0, 0]), (3, [0, 0, 0, 0]), (0, [0, 0, 0, 0])],
     wts := [(5, [1, 1, 0]), (3, [1, 0, 0]), (0, [1])], rows := [], occ := [[-1, -1]],
@@ -148,14 +189,21 @@ example : (match run { s := exRestored, jobs := [] } (exStarts.map (fun x => Ev.
     | .ok y' => decide (
         y'.jobs.map (fun j => j.picked.map (fun p => (p.ens, p.pn))) = [[(1, 5)], [(0, 3)]] ∧
         y'.s.locked = [([1], [5]), ([0], [3])] ∧ (persist y'.s).locked = [([2], [5]), ([1], [3])] ∧
+        (persist y'.s).lockedOrd = [3, 5] ∧ y'.s.spawned = 6 ∧
+        y'.jobs.map (fun j => j.picked.map (fun p => (p.rgen, p.rgenEng))) =
+          [[(⟨7, [3, 0]⟩, ⟨7, [3, 0, 0]⟩)], [(⟨7, [5, 0]⟩, ⟨7, [5, 0, 0]⟩)]] ∧
         y'.s.trajs = [some 0, some 3, some 5, none] ∧ y'.s.locks = [false, true, true, true])
     | .error _ => false) = true := by
   decide +kernel
 
+def exRecs : List ((List Nat × List Nat) × Nat) := [(([2], [5]), 3), (([1], [3]), 5)]
+
 /-- the hypotheses of `reissue_exact` hold for it -/
-example : exStarts.length = exRestored.locked0.length ∧ exRestored.trajs.length = exRestored.locks.length ∧
-    Held exRestored [] ∧ ((([] : List (Nat × Nat)) ++ exRestored.locked0.flatMap recPairs).map (·.2)).Nodup :=
-  ⟨rfl, rfl, fun _ h => absurd h (by simp), by decide⟩
+example : exStarts.length = exRecs.length ∧ exRestored.locked0 = exRecs.map (·.1) ++ [] ∧
+    exRestored.locked0Ord = exRecs.map (fun r => some r.2) ++ [] ∧ exRestored.entropy = exRestored.seed ∧
+    exRestored.trajs.length = exRestored.locks.length ∧
+    Held exRestored [] ∧ ((([] : List (Nat × Nat)) ++ exRecs.flatMap (fun r => recPairs r.1)).map (·.2)).Nodup :=
+  ⟨rfl, rfl, rfl, rfl, rfl, fun _ h => absurd h (by simp), by decide⟩
 
 
 /-! a fresh one-worker system with [0-], [0+] (+ ghost), seed 5, 6 steps: started, two steps done, split at the third -/
@@ -199,6 +247,8 @@ theorem exRestoreRel : RestoreRel [[-1]] exR.1 exS' := by
   · apply eq_ok_of_okEq; decide +kernel
   · refine ⟨by decide +kernel, by decide +kernel, by decide +kernel, FEq_of_keys _ _ (by decide +kernel),
             FEq_of_keys _ _ (by decide +kernel)⟩
+  · decide +kernel
+  · decide +kernel
   · decide +kernel
   · decide +kernel
   · decide +kernel
